@@ -1,6 +1,7 @@
 package main
 
 import (
+	"go/token"
 	"fmt"
 	"go/types"
 	"sort"
@@ -392,6 +393,17 @@ func propC19(w *World, r *Report) {
 			r.Check(len(pi.calls) >= 2 && pi.calls[0] == "sync.Mutex.Lock" && pi.calls[1] == "defer sync.Mutex.Unlock" && len(pi.stores) == 0, "Q6", "CopyRecent reads under the ring's lock and modifies nothing", w.InstrPos(pi.p.Ret), strings.Join(pi.calls, ","))
 		}
 		r.Check(len(pis) == 1, "Q6", "CopyRecent is straight-line", "-", fmt.Sprint(len(pis)))
+		// the position is read AFTER the lock is taken: a slot chosen before would no longer be "the frame before the
+		// current one" when a Move gets in between (CopyRecent runs on the request goroutines)
+		for _, m := range []string{"CopyRecent", "Move"} {
+			fn := ri.methods[m]
+			out := ringAccessesOutsideLock(fn)
+			pos := w.Pos(fn.Pos())
+			if len(out) > 0 {
+				pos = w.InstrPos(out[0])
+			}
+			r.Check(len(out) == 0, "Q6", m+": every access to the ring's state happens after the lock is taken", pos, fmt.Sprintf("%d accesses before Lock", len(out)))
+		}
 	}
 	// ---- Oldest
 	{
@@ -716,4 +728,45 @@ func checkRingCapacityExact(w *World, r *Report, rule string) {
 func ringHelper(ri *ringInfo, fn *ssa.Function) func(*ssa.Function) bool {
 	same := sameReceiverHelperOf(fn)
 	return func(c *ssa.Function) bool { return c != ri.full && same(c) }
+}
+
+// ringAccessesOutsideLock: loads/stores of receiver fields of a locking method that are not dominated by its Lock call.
+func ringAccessesOutsideLock(fn *ssa.Function) []ssa.Instruction {
+	var lock ssa.Instruction
+	for _, b := range fn.Blocks {
+		for _, in := range b.Instrs {
+			if c, ok := in.(*ssa.Call); ok && lock == nil {
+				if cl := c.Call.StaticCallee(); cl != nil && cl.String() == "(*sync.Mutex).Lock" {
+					lock = in
+				}
+			}
+		}
+	}
+	var out []ssa.Instruction
+	if lock == nil || len(fn.Params) == 0 {
+		return out
+	}
+	after := func(in ssa.Instruction) bool {
+		if in.Block() == lock.Block() {
+			return instrIndex(in) > instrIndex(lock)
+		}
+		return lock.Block().Dominates(in.Block())
+	}
+	for _, b := range fn.Blocks {
+		for _, in := range b.Instrs {
+			var addr ssa.Value
+			switch x := in.(type) {
+			case *ssa.UnOp:
+				if x.Op == token.MUL {
+					addr = x.X
+				}
+			case *ssa.Store:
+				addr = x.Addr
+			}
+			if fa, ok := addr.(*ssa.FieldAddr); ok && fa.X == ssa.Value(fn.Params[0]) && !after(in) {
+				out = append(out, in)
+			}
+		}
+	}
+	return out
 }
